@@ -135,6 +135,11 @@ func honestUDP(c Case) (kind, detail string) {
 	if c.ServerCert {
 		o.ServerCert = "good"
 	}
+	if c.Encrypted {
+		// "already encrypted" on the packet carrier = the KCP block cipher keyed by the password in
+		// the URL: it is not TLS, so everything required of an unencrypted carrier still applies
+		o.ServerSecret, o.ClientSecret = "s3cret-shared", "s3cret-shared"
+	}
 	u, err := world.NewUDP(o)
 	if err != nil {
 		return "setup", err.Error()
@@ -155,8 +160,8 @@ func honestUDP(c Case) (kind, detail string) {
 	inClear := bytes.Contains(u.Net.Captured(), marker)
 	switch {
 	case c.MustSecure && established && !c.ServerCert:
-		return "secure-required-but-plaintext-session", "UDP: data carried although security is required and the server offers no StartTLS"
-	case established && c.ServerCert && inClear:
+		return "secure-required-but-plaintext-session", fmt.Sprintf("UDP (shared secret: %v): data carried although security is required and the server offers no StartTLS", c.Encrypted)
+	case established && c.ServerCert && inClear && !c.Encrypted:
 		return "payload-in-clear-on-secure-session", "UDP: StartTLS session but the payload is visible in the datagrams"
 	case !established && want:
 		return "inconclusive", "no session within the real-time horizon: " + u.Front.Err
@@ -415,7 +420,7 @@ func cases() []Case {
 	var out []Case
 	for _, carrier := range []string{"stream", "ws", "stdio", "dns", "udp"} {
 		for _, enc := range []bool{false, true} {
-			if enc && (carrier == "dns" || carrier == "udp") {
+			if enc && carrier == "dns" {
 				continue
 			}
 			for _, crt := range []bool{false, true} {
